@@ -37,6 +37,12 @@ enum Op {
 	/// a caller looks at the wallet: `retrieve_summary_info(refresh = true)`, i.e. a complete nested
 	/// refresh on another thread (the usual situation of a GUI or `info` call while the updater runs)
 	Look,
+	/// the user cancels the pending receipt R (a payment the other wallet has finalized but not yet mined)
+	CancelR,
+	/// node event: the block holding R's transaction is mined
+	MineR,
+	/// the user makes the wallet's other account the active one (an account whose log ids overlap with default's)
+	SwitchAcct,
 }
 
 #[derive(Clone, Copy, Debug, PartialEq)]
@@ -53,6 +59,8 @@ struct Material {
 	f_id: Option<uuid::Uuid>,
 	incoming: Option<Slate>,
 	ttl_cutoff: u64,
+	r_id: Option<uuid::Uuid>,
+	r_tx: Option<grin_core::core::Transaction>,
 }
 
 struct HookState {
@@ -167,6 +175,24 @@ fn do_op(cx: &RunCtx, op: &Op) -> String {
 			Op::Look => {
 				let w = cx.world.borrow();
 				w.wallets[0].info(true, 1).map(|_| ())
+			}
+			Op::CancelR => {
+				let w = cx.world.borrow();
+				match cx.mat.r_id {
+					Some(id) => w.wallets[0].cancel(None, Some(id)),
+					None => Ok(()),
+				}
+			}
+			Op::MineR => {
+				let mut w = cx.world.borrow_mut();
+				match &cx.mat.r_tx {
+					Some(tx) => w.mine_txs(None, &[tx.clone()]).map_err(|e| libwallet::Error::GenericError(e)),
+					None => Ok(()),
+				}
+			}
+			Op::SwitchAcct => {
+				let w = cx.world.borrow();
+				w.wallets[0].set_account("acct1")
 			}
 			Op::FinPostMine => {
 				let tx = {
@@ -372,6 +398,7 @@ pub fn run(a: &Args) {
 	// ---------------- base world and start states (each a directory snapshot + side material)
 	let base = format!("{}/base", a.work);
 	let mut w = World::create(&base, &[WalletSpec { name: "w0".into(), mnemonic_idx: 0, masked: false, password: "".into() }, WalletSpec { name: "w1".into(), mnemonic_idx: 1, masked: false, password: "".into() }]);
+	let _ = w.wallets[0].create_account("acct1");
 	w.mine_n(Some(0), 6).unwrap();
 	w.mine_n(Some(1), 3).unwrap();
 	w.mine_n(None, 3).unwrap();
@@ -395,6 +422,26 @@ pub fn run(a: &Args) {
 	})()
 	.ok();
 	let ttl_cutoff = f_s1.as_ref().map(|s| s.ttl_cutoff_height).unwrap_or(0);
+	// R: a payment from w1 that w0 has received and w1 has finalized, not yet mined
+	let (r_id, r_tx) = match (|| -> Result<(uuid::Uuid, grin_core::core::Transaction), libwallet::Error> {
+		let s = w.wallets[1].init_send(InitTxArgs { amount: 1_700_000_000, minimum_confirmations: 1, selection_strategy_is_use_all: false, ..Default::default() })?;
+		w.wallets[1].lock_outputs(&s)?;
+		let r = w.wallets[0].receive(&s, None)?;
+		let f = w.wallets[1].finalize(&r)?;
+		Ok((s.id, f.tx_or_err()?.clone()))
+	})() {
+		Ok((i, t)) => (Some(i), Some(t)),
+		Err(_) => (None, None),
+	};
+	// the other account of w0 gets pending receipts until its (per-account) log ids cover F's id in default
+	if let Some(fid) = f_s1.as_ref().and_then(|s| w.wallets[0].all_txs().unwrap_or_default().into_iter().find(|t| t.tx_slate_id == Some(s.id)).map(|t| t.id)) {
+		for k in 0..=(fid as u64) {
+			let _ = (|| -> Result<(), libwallet::Error> {
+				let s = w.wallets[1].init_send(InitTxArgs { amount: 100_000_000 + k, minimum_confirmations: 1, selection_strategy_is_use_all: false, ..Default::default() })?;
+				w.wallets[0].receive(&s, Some("acct1")).map(|_| ())
+			})();
+		}
+	}
 	let mut premade: BTreeSet<uuid::Uuid> = BTreeSet::new();
 	// (the excess of a receive depends on a random offset adjustment, so it is not compared by value)
 	for s in [&l, &f_s1].iter() {
@@ -435,6 +482,12 @@ pub fn run(a: &Args) {
 	}
 	let s_a = snap(&mut w, "A", &a.work);
 	extra.push((s_a.clone(), Multi::Refresh));
+	// snapshot A2: the next block reaches the TTL cut-off of F
+	while w.height() + 1 < ttl_cutoff {
+		let _ = w.mine(None, false);
+	}
+	let s_a2 = snap(&mut w, "A2", &a.work);
+	extra.push((s_a2.clone(), Multi::Refresh));
 	// snapshot B: the chain has moved past the TTL cut-off of F (refresh will want to cancel it)
 	while w.height() < ttl_cutoff {
 		let _ = w.mine(None, false);
@@ -474,8 +527,8 @@ pub fn run(a: &Args) {
 	drop(w);
 	let _ = std::fs::remove_dir_all(&base);
 
-	let mat_of = |_w: &World| Material { l: l.clone(), f_reply: f_reply.clone(), f_id, incoming: incoming.clone(), ttl_cutoff };
-	let all_ops = vec![Op::Lock, Op::Finalize, Op::CancelF, Op::Receive, Op::Mine, Op::InitSend, Op::FinPostMine, Op::MineTtl, Op::Look];
+	let mat_of = |_w: &World| Material { l: l.clone(), f_reply: f_reply.clone(), f_id, incoming: incoming.clone(), ttl_cutoff, r_id, r_tx: r_tx.clone() };
+	let base_ops = vec![Op::Lock, Op::Finalize, Op::CancelF, Op::Receive, Op::Mine, Op::InitSend, Op::FinPostMine, Op::MineTtl, Op::Look, Op::CancelR, Op::MineR];
 
 	let mut cfg_idx = 0usize;
 	let mut sched_total = 0u64;
@@ -504,6 +557,11 @@ pub fn run(a: &Args) {
 		if a.shard == 0 {
 			rep.extra.insert(format!("lock_acquisition_sites_{:?}_{}", multi, sname), json!(alone.sites));
 		}
+		// (switching the active account is exercised against the refresh only)
+		let mut all_ops = base_ops.clone();
+		if *multi == Multi::Refresh {
+			all_ops.push(Op::SwitchAcct);
+		}
 		// ---- single operations at every position
 		let mut configs: Vec<Vec<Op>> = all_ops.iter().map(|o| vec![o.clone()]).collect();
 		// ---- pairs (thorough: all; quick: the ones where a node event and an owner call meet)
@@ -518,7 +576,7 @@ pub fn run(a: &Args) {
 			}
 			p
 		} else {
-			vec![(Op::MineTtl, Op::Finalize), (Op::MineTtl, Op::CancelF), (Op::Finalize, Op::CancelF), (Op::Mine, Op::Lock), (Op::Mine, Op::Finalize), (Op::FinPostMine, Op::Look), (Op::Mine, Op::Look)]
+			vec![(Op::MineTtl, Op::Finalize), (Op::MineTtl, Op::CancelF), (Op::Finalize, Op::CancelF), (Op::Mine, Op::Lock), (Op::Mine, Op::Finalize), (Op::FinPostMine, Op::Look), (Op::Mine, Op::Look), (Op::CancelR, Op::MineR)]
 		};
 		for (x, y) in pairs {
 			configs.push(vec![x, y]);
@@ -653,7 +711,7 @@ pub fn run(a: &Args) {
 			}
 		}
 	}
-	for s in [&s_a, &s_b, &s_c].iter() {
+	for s in [&s_a, &s_a2, &s_b, &s_c].iter() {
 		let _ = std::fs::remove_dir_all(s);
 	}
 	let _: Option<(TxLogEntryType, Value)> = None;
